@@ -70,7 +70,7 @@ def _task(kv):
         else:
             st, args, res = I.run_root(key, variant)
         rec['exits'] = len(res)
-        rec['contracts'] = run_contracts(I, key, args, res)
+        rec['contracts'] = run_contracts(I, key, args, res, variant)
         rec['extra'] = I.spec.root_extra(I, key, args, res)
     except AnalysisIncomplete as e:
         rec['incomplete'] = str(e)
